@@ -14,13 +14,19 @@ op tokens:
         are the instants at which the existence of the keep-alive goroutine was sampled; `scn` (the
         scenario, for the harness's replay) is ignored here.
   script element: `a<d>` answer after d ns · `m<d>` method-not-found after d · `e<d>` other error after d ·
-                  `n` never reacts.  Further tokens are ignored.
+                  `n` never reacts — all through a Ping that returns at its deadline at the latest;
+                  `A<d>` `M<d>` `E<d>`: the same results from a Ping that OVERRUNS: it returns after d
+                  whatever its deadline (its write is blocked while the peer does not read).  In `kss` the
+                  capital letter is the harness's finding that the ping returned the moment its blocked
+                  transport write returned.  Further tokens are ignored.
 observation:
-  `pings=<instants|-> to=<ping deadline ns | - | mixed> close=<instants of Close|-> exit=<0|1> late=<n>`
+  `pings=<instants|-> to=<time each ping was given until its deadline: one value if all equal, else v1/v2/… | -> close=<instants of Close|-> exit=<0|1> late=<n>`
   (`to`, `exit`, `late` are `-`/`1`/`0` for `kas`, where they cannot be observed from the peer).
   `kss` adds ` warn=<instants of the tolerated-miss log records|-> shut=<instant the transport connection was closed|->
-  live=<a1|-><a2>` (goroutine present at s1 / s2); `close` = instants of the "closing session" log record.
-  `shut` depends on the peer and the transport, not on the loop: the model line copies it, the monitor checks it.
+  live=<a1|-><a2> wblk=<t|->` (goroutine present at s1 / s2); `close` = instants of the "closing session" log record;
+  `wblk`: when keep-alive reported closing, a transport write of that side was blocked until t (the
+  session's Close waits for it).
+  `shut` and `wblk` depend on the peer and the transport, not on the loop: the model line copies them, the monitor checks `shut`.
 
 The model line is `KeepAlive.runCancel` rendered.  The monitor is the property itself: literal
 `I/2`, literal `max 1`, the closing tick found by searching for the first window of `T` consecutive
@@ -41,6 +47,9 @@ def parseScript (s : String) : Option Script :=
     | 'a', some d => some { kind := .answer, delay := some d }
     | 'm', some d => some { kind := .mnf, delay := some d }
     | 'e', some d => some { kind := .error, delay := some d }
+    | 'A', some d => some { kind := .answer, delay := some d, honours := false }
+    | 'M', some d => some { kind := .mnf, delay := some d, honours := false }
+    | 'E', some d => some { kind := .error, delay := some d, honours := false }
     | _, _ => none
 
 def parseScripts (s : String) : Option (List Script) :=
@@ -87,24 +96,30 @@ def modelObs (sc : Scenario) (impl : String) : String :=
   let to := if sc.real ∨ s.pings.isEmpty then "-" else toString (Generated.KeepAlive.pingTimeout sc.I)
   let base := s!"pings={showNats s.pings} to={to} close={close} exit=1 late=0"
   if sc.sess then
-    let e := endAt sc.I sc.t0 sc.scripts sc.tc
+    -- the goroutine returns when its call of session.Close returns, and that waits for blocked writes
+    let held : Nat := if s.status == .closed then ((kv (words impl) "wblk").bind String.toNat?).getD 0 else 0
+    let e := max (endAt sc.I sc.t0 sc.scripts sc.tc) held
     let alive (t : Nat) : String := if t < e then "1" else "0"
     let a1 := match sc.at1 with
       | some t => alive t
       | none => "-"
     let shut := (kv (words impl) "shut").getD "?"
-    s!"{base} warn={showNats (warnsCancel sc.I sc.t0 sc.scripts sc.tc)} shut={shut} live={a1}{alive sc.at2}"
+    let wblk := match kv (words impl) "wblk" with
+      | some w => s!" wblk={w}"
+      | none => ""
+    s!"{base} warn={showNats (warnsCancel sc.I sc.t0 sc.scripts sc.tc)} shut={shut} live={a1}{alive sc.at2}{wblk}"
   else base
 
 /-! ### The property monitor -/
 
 /-- What the property says one ping amounts to: answered / method-not-found / failed, the latter also
-when nothing came back within half an interval. 0 = answered, 1 = method-not-found, 2 = failed. -/
+when nothing came back within half an interval — unless the ping overran (then its result is what it
+returned, however late). 0 = answered, 1 = method-not-found, 2 = failed. -/
 def specOutcome (I : Nat) (s : Script) : Nat :=
   match s.delay with
   | none => 2
   | some d =>
-    if d < I / 2 then (match s.kind with | .answer => 0 | .mnf => 1 | .error => 2) else 2
+    if d < I / 2 ∨ ¬ s.honours then (match s.kind with | .answer => 0 | .mnf => 1 | .error => 2) else 2
 
 /-- The tick at which the property requires `Close`: the least `k` such that outcomes
 `k-T+1 … k` all failed, provided no method-not-found occurred up to `k`. -/
@@ -115,11 +130,47 @@ def specCloseTick (T : Nat) (os : List Nat) : Option Nat :=
 
 def trailingFails (os : List Nat) : Nat := (os.reverse.takeWhile (· == 2)).length
 
-/-- How long the property lets one ping last: the scripted delay, at most half an interval. -/
+/-- How long the property lets one ping last: the scripted delay, at most half an interval — or, for
+a ping whose write is blocked, until it returns. -/
 def specDur (I : Nat) (s : Script) : Nat :=
   match s.delay with
   | none => I / 2
-  | some d => if d < I / 2 then d else I / 2
+  | some d => if d < I / 2 ∨ ¬ s.honours then d else I / 2
+
+/-- One ping as the property sees it. -/
+structure SpecPing where
+  start : Nat
+  stop : Nat
+  outcome : Nat
+  overran : Bool
+
+/-- When the next ping is due after a ping issued at `last` and over at `free`: on the next tick of
+the grid `I, 2I, …`; a tick that fires while a ping is in flight stays pending (one, not more) and is
+served the moment that ping is over. -/
+def specNext (I last free : Nat) : Nat :=
+  let g := (last / I + 1) * I
+  if free > g then free else g
+
+/-- The pings the property expects before instant `tc` from a loop that goes on pinging. -/
+def specSched (I tc : Nat) : Nat → Nat → List Script → List SpecPing
+  | _, _, [] => []
+  | last, free, s :: t =>
+    let p := specNext I last free
+    if p < tc then
+      { start := p, stop := p + specDur I s, outcome := specOutcome I s, overran := ! s.honours && specDur I s > I / 2 }
+        :: specSched I tc p (p + specDur I s) t
+    else []
+
+/-- The shape of keepalive-F30: the ping in flight at the cancellation `tc` ran past a tick, and when it
+was over the loop served that pending tick — a ping at the very end of that ping — although it had
+been cancelled. -/
+def f30Shape (I tc : Nat) (sched : List SpecPing) (pings : List Nat) : Option String :=
+  match sched.getLast? with
+  | some l =>
+    if l.stop > tc ∧ l.stop ≥ (l.start / I + 1) * I ∧ pings.contains l.stop then
+      some s!"silent_stop: keepalive-F30: keep-alive sent a ping at {l.stop} although it was cancelled (the session's Close was called) at {tc}: the ping issued at {l.start} was in flight then and ended at {l.stop} with a tick pending, and the loop served the tick instead of the cancellation; keep-alive ends when the session is closed"
+    else none
+  | none => none
 
 /-- The additional clauses of the stream `sessions` (the property's last sentence): after the
 session's Close was called no ping is sent; nothing is logged and no goroutine is left once
@@ -127,21 +178,23 @@ keep-alive had to end — `due`: at the closing ping's end, at the end of the pi
 method-not-found, or at the Close call / the end of the ping in flight then; while it has not ended
 the goroutine exists; a session that keep-alive reports as closed has its connection closed. -/
 def monitorSess (sc : Scenario) (o : List String) (pings closes : List Nat) (kstar : Option Nat)
-    (os : List Nat) (m : Nat) : Option String :=
+    (os : List Nat) (m : Nat) (sched : List SpecPing) : Option String :=
   match (kv o "warn").bind natList, kv o "shut", kv o "live" with
   | some warn, some shut, some live =>
-    let I := sc.I
     let tc := sc.tc
-    let endOf (k : Nat) : Nat := if k = 0 then 0 else k * I + ((sc.scripts[k - 1]?).map (specDur I)).getD 0
+    let endOf (k : Nat) : Nat := if k = 0 then 0 else ((sched[k - 1]?).map (·.stop)).getD 0
     let byCancel : Bool := kstar.isNone ∧ ¬ os.any (· == 1)
-    let due : Nat := if byCancel then max tc (endOf m) else endOf m
+    -- when keep-alive closes the session its goroutine returns when session.Close does, and that waits
+    -- for transport writes that are blocked (`wblk`)
+    let held : Nat := if kstar.isSome then ((kv o "wblk").bind String.toNat?).getD 0 else 0
+    let due : Nat := if byCancel then max tc (endOf m) else max (endOf m) held
     let why : String :=
       if byCancel then s!"the session's Close was called at {tc}"
       else if kstar.isSome then s!"keep-alive closed the session at tick {m}"
       else s!"the peer reported ping as unsupported at tick {m}"
     let afterClose : Option String :=
       match pings.find? (· ≥ tc) with
-      | some p => some s!"silent_stop: keep-alive sent a ping at {p} although the session's Close was called at {tc}; keep-alive ends when the session is closed"
+      | some p => f30Shape sc.I tc sched pings <|> some s!"silent_stop: keep-alive sent a ping at {p} although the session's Close was called at {tc}; keep-alive ends when the session is closed"
       | none => none
     let logged : Option String :=
       match (warn ++ closes).find? (· > due) with
@@ -150,8 +203,11 @@ def monitorSess (sc : Scenario) (o : List String) (pings closes : List Nat) (kst
     let shutc : Option String :=
       match closes with
       | c :: _ =>
+        let wblk : Nat := ((kv o "wblk").bind String.toNat?).getD 0
         match shut.toNat? with
-        | some sh => if sh ≤ c then none else some s!"closes_iff_T_consecutive: keep-alive reported closing the session at {c} but its connection was only closed at {sh}"
+        | some sh =>
+          if sh ≤ c ∨ sh ≤ wblk then none
+          else some s!"closes_iff_T_consecutive: keep-alive reported closing the session at {c} but its connection was only closed at {sh}, although no transport write was blocked until then"
         | none => some s!"closes_iff_T_consecutive: keep-alive reported closing the session at {c} but its connection was never closed"
       | [] => none
     let flag (a : String) (t : Nat) : Option String :=
@@ -170,15 +226,37 @@ def monitorSess (sc : Scenario) (o : List String) (pings closes : List Nat) (kst
     afterClose <|> logged <|> shutc <|> livec
   | _, _, _ => some "bad-observation: warn/shut/live missing"
 
+/-- The time each ping was given until its deadline must be a fresh half interval. -/
+def monitorDeadline (I : Nat) (pings : List Nat) (to : String) : Option String :=
+  if to == "-" ∨ to == toString (I / 2) then none
+  else
+    let vs := to.splitOn "/"
+    match (vs.zipIdx).find? (fun (v, _) => v != toString (I / 2)) with
+    | none => none
+    | some (v, j) =>
+      if vs.length ≤ 1 then
+        some s!"close_time_bound: the ping deadline is {to}, not half the interval ({I / 2})"
+      else
+        let short : Bool := match v.toInt? with
+          | some x => x < (I / 2 : Nat)
+          | none => false
+        let at_ := ((pings[j]?).map toString).getD "?"
+        if short then
+          some s!"answer_resets: ping {j + 1} (issued at {at_}) was given {v} until its deadline, not a fresh ping timeout of half the interval ({I / 2}); a ping the peer answers within the ping timeout must not count as a miss"
+        else
+          some s!"close_time_bound: ping {j + 1} (issued at {at_}) was given {v} until its deadline, not half the interval ({I / 2})"
+
 def monitor (sc : Scenario) (impl : String) : Option String :=
   let o := words impl
   match (kv o "pings").bind natList, kv o "to", (kv o "close").bind natList, kv o "exit", kv o "late" with
   | some pings, some to, some closes, some exit, some late =>
     let I := sc.I
     let T : Nat := if sc.t0 < 1 then 1 else sc.t0.toNat
-    let n := (sc.tc - 1) / I
-    let os := (sc.scripts.take n).map (specOutcome I)
+    let sched := specSched I sc.tc 0 0 sc.scripts
+    let os := sched.map (·.outcome)
     let kstar := specCloseTick T os
+    let startOf (k : Nat) : Nat := if k = 0 then 0 else ((sched[k - 1]?).map (·.start)).getD 0
+    let stopOf (k : Nat) : Nat := if k = 0 then 0 else ((sched[k - 1]?).map (·.stop)).getD 0
     let closing : Option String :=
       match kstar, closes with
       | none, [] => none
@@ -186,15 +264,23 @@ def monitor (sc : Scenario) (impl : String) : Option String :=
       | none, c :: _ =>
         let seen := os.take pings.length
         let m := trailingFails seen
-        if 0 < m ∧ m < T ∧ (seen.drop (seen.length - T)).any (· == 0) then
+        if seen.getLast? == some 0 then
+          some s!"answer_resets: closed at {c} right after ping {seen.length} (issued at {startOf seen.length}), which the peer answers within its ping timeout (threshold {T}); a peer that answers is never closed by keep-alive"
+        else if 0 < m ∧ m < T ∧ (seen.drop (seen.length - T)).any (· == 0) then
           some s!"answer_resets: closed at {c} after only {m} consecutive failed pings (threshold {T}); an answered ping resets the count"
         else some s!"closes_iff_T_consecutive: closed at {c} although no {T} consecutive pings failed before the loop had to stop"
       | some k, [c] =>
-        if pings.length < k ∨ (pings.length > k ∧ (c < k * I ∨ c ≥ (k + 1) * I)) then
-          some s!"closes_iff_T_consecutive: closed at {c} after {pings.length} pings; consecutive failure number {T} is ping {k} at {k * I}"
-        else if c < k * I then some s!"close_time_bound: closed at {c}, before tick {k} at {k * I}"
-        else if c > k * I + I / 2 then
-          some s!"close_time_bound: closed at {c}, later than one ping timeout (I/2) after tick {k} at {k * I}"
+        let pk := startOf k
+        let overran := ((sched[k - 1]?).map (·.overran)).getD false
+        let bound := if overran then stopOf k else pk + I / 2
+        if pings.length < k ∨ (pings.length > k ∧ (c < pk ∨ c ≥ specNext I pk (stopOf k))) then
+          some s!"closes_iff_T_consecutive: closed at {c} after {pings.length} pings; consecutive failure number {T} is ping {k} at {pk}"
+        else if c < pk then some s!"close_time_bound: closed at {c}, before ping {k} was issued at {pk}"
+        else if c > bound then
+          if overran then
+            some s!"close_time_bound: closed at {c}, later than the end ({bound}) of ping {k}, whose write was blocked until then"
+          else
+            some s!"close_time_bound: closed at {c}, later than one ping timeout (I/2) after ping {k} was issued at {pk}"
         else none
       | some _, _ => some s!"closes_iff_T_consecutive: Close called {closes.length} times"
     let m : Nat := match kstar with
@@ -202,26 +288,31 @@ def monitor (sc : Scenario) (impl : String) : Option String :=
       | none => match os.findIdx? (· == 1) with
         | some j => j + 1
         | none => os.length
+    let want := (sched.take m).map (·.start)
+    let onGrid : Bool := want == (List.range m).map (fun j => (j + 1) * I)
     let ticks : Option String :=
-      if pings == (List.range m).map (fun j => (j + 1) * I) then none
-      else if pings.length > m ∧ pings.take m == (List.range m).map (fun j => (j + 1) * I) then
-        some s!"silent_stop: the loop went on pinging after it had to end at tick {m} (pings at {showNats pings})"
-      else some s!"pings_at_ticks: pings at {showNats pings}, expected one at each of the first {m} ticks of {I}"
-    let deadline : Option String :=
-      if sc.real ∨ pings.isEmpty ∨ to == toString (I / 2) then none
-      else some s!"close_time_bound: the ping deadline is {to}, not half the interval ({I / 2})"
+      if pings == want then none
+      else if pings.length > m ∧ pings.take m == want then
+        some s!"silent_stop: the loop went on pinging after it had to end with ping {m} (pings at {showNats pings})"
+      else if onGrid then
+        some s!"pings_at_ticks: pings at {showNats pings}, expected one at each of the first {m} ticks of {I}"
+      else
+        some s!"pings_at_ticks: pings at {showNats pings}, expected {showNats want}: one per tick of {I}, a tick that fires during a ping being served when that ping is over"
+    let f30 : Option String :=
+      if kstar.isNone ∧ ¬ os.any (· == 1) ∧ ¬ sc.real then f30Shape I sc.tc sched pings else none
+    let deadline : Option String := if sc.real ∨ pings.isEmpty then none else monitorDeadline I pings to
     let quiet : Option String :=
       if exit == "1" ∧ late == "0" then none
       else some "silent_stop: the keep-alive goroutine or its ticker is still active after the loop ended"
     let long : Option String :=
       if ¬ sc.sess then none else
-      match (sc.scripts.zipIdx).find? (fun (s, _) => match s.delay with | some d => d > I / 2 | none => false) with
-      | some (s, j) => some s!"ping_done_before_next_tick: ping {j + 1} lasted {s.delay.getD 0}, longer than its deadline of half an interval ({I / 2})"
+      match (sc.scripts.zipIdx).find? (fun (s, _) => s.honours && (match s.delay with | some d => d > I / 2 | none => false)) with
+      | some (s, j) => some s!"ping_done_before_next_tick: ping {j + 1} lasted {s.delay.getD 0}, longer than its deadline of half an interval ({I / 2}), although its transport write was not blocked then"
       | none => none
     if sc.sess then
-      deadline <|> long <|> (monitorSess sc o pings closes kstar os m).filter (·.startsWith "silent_stop: keep-alive sent")
-        <|> closing <|> ticks <|> monitorSess sc o pings closes kstar os m <|> quiet
-    else deadline <|> closing <|> ticks <|> quiet
+      f30 <|> deadline <|> long <|> (monitorSess sc o pings closes kstar os m sched).filter (fun c => c.startsWith "silent_stop: keep-alive sent" ∨ c.startsWith "silent_stop: keepalive-F30")
+        <|> closing <|> ticks <|> monitorSess sc o pings closes kstar os m sched <|> quiet
+    else f30 <|> closing <|> deadline <|> ticks <|> quiet
   | _, _, _, _, _ => some s!"bad-observation: {impl}"
 
 def engine : Engine Unit where
